@@ -26,7 +26,7 @@ REQUIRED_MONITORS = ["F1sq_le_F2", "I_equals_scale_F2_over_V", "lowq_equality_mo
 REQUIRED_BUCKETS = {"quick": ["pd:off", "pd:on", "mesh>100", "mode:volume-sphere", "hollow", "lane:asan", "zero-default-length-switched-on", "mesh-crosses-validity-condition",
                               "after-product-built-with-this-form-factor", "special:lengths-exactly-equal",
                               "special:equal-lengths-with-equal-dispersity", "entry:2d-with-orientation-spread",
-                              "cutoff>0:removes-mesh-points", "entry:DirectModel-cutoff-0"]}
+                              "cutoff>0:removes-mesh-points", "entry:DirectModel-cutoff-0", "reparameterised-form-factor"]}
 REQUIRED_BUCKETS["thorough"] = REQUIRED_BUCKETS["quick"]
 SPHERICAL = ["sphere", "core_shell_sphere", "fuzzy_sphere", "core_multi_shell", "onion", "spherical_sld", "vesicle",
              "multilayer_vesicle"]
@@ -66,12 +66,74 @@ def gen_cases(tier, seed):
             for kk in ((0, 1) if tier == "quick" else range(6)):
                 cases.append({"id": "%s/eq-%s-%d" % (m, "-".join(g), kk), "model": m, "k": 300 + 2*j + kk + (0 if kk < 2 else 100*kk), "seed": seed,
                               "group": "%s/eq%d" % (m, j), "lane": "plain", "equal": g})
+    for j in range(len(REPARAMS)):
+        for kk in range(2 if tier == "quick" else 20):
+            cases.append({"id": "reparam/%d-%02d" % (j, kk), "kind": "reparam", "j": j, "k": kk, "seed": seed, "model": "reparam",
+                          "group": "rp%d" % j, "lane": "plain"})
     for m in (["cylinder", "core_shell_parallelepiped", "hollow_cylinder", "vesicle"] if tier == "quick" else fq_models()):
         cases.append({"id": "asan/%s" % m, "model": m, "k": 1000, "seed": seed, "group": "asan-" + m, "lane": "asan", "cost": 4})
     return cases
 
 
+REPARAMS = [
+    ("ellipsoid", [["rp2", "Ang", 30.0, [0, np.inf], "volume", "polar"], ["re2", "Ang", 50.0, [0, np.inf], "volume", "equatorial"]],
+     "radius_polar = rp2\nradius_equatorial = re2"),
+    ("ellipsoid", [["vol", "Ang^3", 6.7e5, [0, np.inf], "volume", "particle volume"],
+                   ["aspect", "", 2.0, [0.1, 10.0], "volume", "polar:equatorial"]],
+     "re = cbrt(vol/(M_4PI_3*aspect))\nradius_equatorial = re\nradius_polar = aspect*re"),
+    ("cylinder", [["diam", "Ang", 44.0, [0, np.inf], "volume", "diameter"], ["len2", "Ang", 300.0, [0, np.inf], "volume", "length"]],
+     "radius = 0.5*diam\nlength = len2"),
+    ("hollow_cylinder", [["outer", "Ang", 40.0, [0, np.inf], "volume", "outer radius"],
+                         ["wall", "", 0.3, [0.0, 1.0], "volume", "wall fraction"], ["len2", "Ang", 200.0, [0, np.inf], "volume", ""]],
+     "t_ = wall*outer\nthickness = t_\nradius = outer - t_\nlength = len2"),
+]
+
+
+def run_reparam(case, rec):
+    """Form factors given other parameters (core.reparameterize, as many new shape parameters as the base has, or fewer):
+    the effective-radius modes describe the same particle as the volumes and the amplitudes."""
+    from sasmodels import core as sascore, direct_model
+    base, new, text = REPARAMS[case["j"]]
+    k = case["k"]
+    rng = core.rng_for(case["seed"], PROP, "reparam", case["j"], k)
+    info = sascore.reparameterize(sas.info(base), new, text, name="rtm14_%d" % case["j"])
+    model = sas.build(info)
+    pars = {"scale": float(rng.uniform(0.5, 2)), "background": float(rng.uniform(0, 0.1))}
+    for p_ in info.parameters.kernel_parameters:
+        if p_.type == "sld":
+            pars[p_.name] = float(rng.uniform(0.5, 6.0))
+        elif p_.type != "orientation" and np.isfinite(p_.default) and p_.default != 0:
+            pars[p_.name] = float(min(max(p_.default*rng.uniform(0.7, 1.4), p_.limits[0]), p_.limits[1]))
+    q = [np.exp(rng.uniform(math.log(1e-3), math.log(0.2), 4))]
+    kern = model.make_kernel(q)
+    modes = info.radius_effective_modes or []
+    I = np.asarray(direct_model.call_kernel(kern, dict(pars)), float)
+    # the particle's extent in the base model's terms, through the base model at the translated parameters
+    for mode in range(0, len(modes) + 1):
+        F1, F2, R, Vs, ratio = direct_model.call_Fq(kern, dict(pars, radius_effective_mode=mode))
+        c = {"base": base, "translation": text, "pars": pars, "mode": mode, "mode_name": modes[mode-1] if mode else None,
+             "R": R, "V_shell": Vs, "ratio": ratio}
+        rec.check("I_equals_scale_F2_over_V", core.close(I, pars["scale"]*np.asarray(F2, float)/Vs + pars["background"], 1e-12,
+                                                       1e-14*float(np.max(np.abs(I)))), c)
+        if mode:
+            rec.check("modes_positive_finite", bool(np.isfinite(R) and R > 0 and np.isfinite(Vs) and Vs > 0), c)
+            if "volume sphere" in modes[mode-1].lower():
+                Vform = Vs*ratio
+                rec.check("volume_sphere_mode", abs(4.0/3.0*math.pi*R**3 - Vform) <= 1e-10*Vform,
+                          dict(c, sphere_volume=4.0/3.0*math.pi*R**3, V_form=Vform))
+            # lengths of the particle bound every named radius: R lies between the smallest and largest half-extent x 2
+            lens_ = [abs(pars[n_[0]]) for n_ in new if n_[1] == "Ang"]
+            if lens_ and ("min" in modes[mode-1].lower() or "max" in modes[mode-1].lower()):
+                rec.check("modes_positive_finite", 0.05*min(lens_) <= R <= 2.0*max(lens_),
+                          dict(c, note="a min/max radius mode far outside the particle's own lengths", lengths=lens_))
+    kern.release()
+    rec.bucket("reparameterised-form-factor")
+    rec.set_shape(("reparam", case["j"], k), True)
+
+
 def run_case(case, rec):
+    if case.get("kind") == "reparam":
+        return run_reparam(case, rec)
     from sasmodels import direct_model
     name = case["model"]
     i = sas.info(name)
